@@ -150,6 +150,8 @@ def build_inputs(tier):
                 for b in nums:
                     cases.append(("complex-pattern", f"match v:\n    case {sign}{a} {op} {b}:\n        pass\n"))
                     cases.append(("complex-pattern", f"match v:\n    case {{{sign}{a}{op}{b}: y}}:\n        pass\n"))
+    for s in corpus.pattern_spellings() + corpus.string_mixes():
+        cases.append(("table", s))
     for rc in corpus.regress("C02"):
         cases.insert(0, ("regress", rc["src"]))
     out = []
